@@ -427,7 +427,7 @@ class Client:
         :rtype: :ref:`Response<Response>`
         """
         didlist = services.ReadDataByIdentifier.validate_didlist_input(didlist)
-        response = self.read_data_by_identifier(didlist)
+        response = self.read_data_by_identifier._func_no_error_management(self, didlist)
         values = response.service_data.values
         if len(values) > 0 and len(didlist) > 0:
             return values[didlist[0]]
